@@ -89,3 +89,17 @@ Definition api_in_range (x : api_attr) : Prop :=
   | ALargeCommunities l => Forall (fun t => u32_ok (fst (fst t)) /\ u32_ok (snd (fst t)) /\ u32_ok (snd t)) l
   | _ => True
   end.
+
+(* NLRI: what the prefix decoders guarantee (RFC 4271 s4.3, RFC 4760, RFC 8277 s2.2:
+   prefix length within the address width; a labeled prefix carries at least one
+   20-bit label and its total bit length fits the one-octet length field). *)
+Definition wf_labels (ls : list N) (m : N) : Prop :=
+  ls <> [] /\ Forall (fun l => l < 1048576) ls /\ 24 * N.of_nat (length ls) + m <= 255.
+
+Definition wf_nlri (n : nlri) : Prop :=
+  match n with
+  | NV4 a m => a < 2 ^ 32 /\ m <= 32
+  | NV6 a m => a < 2 ^ 128 /\ m <= 128
+  | NLab4 ls a m => a < 2 ^ 32 /\ m <= 32 /\ wf_labels ls m
+  | NLab6 ls a m => a < 2 ^ 128 /\ m <= 128 /\ wf_labels ls m
+  end.
